@@ -85,10 +85,14 @@ Definition h_act (ch : nat) (vs : list hvolt) : option key :=
   | None => None
   end.
 Definition h_plain (ch : nat) (vs : list hvolt) : option Q :=
-  match nth_error vs ch with Some (b, None) => Some b | _ => None end.
+  match nth_error vs ch with
+  | Some (b, None) => Some b
+  | Some (b, Some fs) => if key_eqb (mk_key fs) [] then Some b else None      (* all factors zero: a plain voltage *)
+  | None => None
+  end.
 Definition h_dep (ck : nat * key) (vs : list hvolt) : option (Q * list Z) :=
   match nth_error vs (fst ck) with
-  | Some (b, Some fs) => if key_eqb (mk_key fs) (snd ck) then Some (b, []) else None
+  | Some (b, Some fs) => if key_eqb (mk_key fs) [] then None else if key_eqb (mk_key fs) (snd ck) then Some (b, []) else None
   | _ => None
   end.
 
@@ -120,11 +124,10 @@ Fixpoint hold_ok (d : nat) (vs : list hvolt) : bool :=
   match vs with
   | [] => true
   | (_, None) :: r => hold_ok d r
-  | (_, Some fs) :: r => Nat.eqb (length fs) d && negb (key_eqb (mk_key fs) []) && hold_ok d r
+  | (_, Some fs) :: r => Nat.eqb (length fs) d && hold_ok d r
   end.
 
-(* structure (true of every builder output for a well-formed source) + the zero-factor condition (key <> ());
-   `reps` = repetitions allowed *)
+(* structure (true of every builder output for a well-formed source); `reps` = repetitions allowed *)
 Fixpoint node_ok (reps : bool) (C : nat) (d : nat) (n : node) : bool :=
   match n with
   | NHold vs dur => Nat.eqb (length vs) C && hold_ok d vs
